@@ -26,7 +26,22 @@ def txt(v):
     return l[2].strip('"') if l else (v[1] if v else "")
 
 WHICH = {"C06": ["full"], "C05": ["full", "us", "us", "ie"], "C13": ["full"], "C19": ["full"], "C14": ["us", "ie"], "C15": ["open"], "C20": ["jp"], "C07": ["full"], "C16": ["full", "us", "ie", "open", "jp"]}
+_CRAFT = {"k": 0}
+def capacity_rows(rng, n, price=None):
+    """one purchase and `n` small sales of it on consecutive days: with several such assets in one run a sheet of the tax report receives
+    more rows than the template holds while no single asset outgrows it (the sheets must be extended by what is already filled)"""
+    t0 = datetime(2020, 1, 5, 12, tzinfo=timezone.utc)
+    rows = [["IN", 3, us(t0), 0, "BUY", 0, price or rprice(rng), (n + 5) * U, None, None, None]]
+    for k in range(n):
+        rows.append(["OUT", 7 + k, us(t0 + timedelta(days=30 + k)), 0, "SELL", 0, rprice(rng), U, 0, None, None, None])
+    return rows
+
 def gen(rng, prop=None):
+    _CRAFT["k"] += 1
+    if prop in ("C14", "C16") and _CRAFT["k"] == 2:
+        n = rng.randint(38, 47)
+        return {"which": rng.choice(["us", "ie"]), "assets": {a: capacity_rows(rng, n + j) for j, a in enumerate(["B1", "B2", "B3"])},
+                "sched": {"1970": "fifo"}, "from": None, "to": None}
     assets = ["B1", "B2", "B3"][:rng.randint(1, 3)]; per = {}; days = []
     for a in assets:
         c = P.gen(rng, "reports"); rows = c["rows"]
@@ -217,7 +232,7 @@ def only_links(r):
 def diff(case, i, m):
     if i["status"].split(":")[0] != m["status"].split(":")[0]: return ["status"]
     if i["status"] != "ok": return []
-    key = lambda t: json.dumps(t[:3], default=str)
+    key = lambda t: json.dumps(t, default=str)
     d = []
     for comp in sorted(set(KIND.values())):
         a = sorted([strip_links(r) for r in i["rows"] if KIND[r[0]] == comp], key=key); b = sorted([strip_links(r) for r in m["rows"] if KIND[r[0]] == comp], key=key)
